@@ -340,8 +340,14 @@ where
     run.generate(wname, WIDE.len() as u64 * 3 * wreps, false, 0.1, |ctx, idx, rng| {
         let w = WIDE[(idx % WIDE.len() as u64) as usize] + if idx % 5 == 4 { rng.u32r(0, 9) } else { 0 };
         let h = 2 + ((idx / WIDE.len() as u64) % 3) as u32;
-        one_case::<C, O>(ctx, tname, w, h, rng);
-        ctx.count("wide_parent_cases", 1);
+        // every fourth case is the transposed shape: more than 255 rows of a few pixels
+        if idx % 4 == 3 {
+            one_case::<C, O>(ctx, tname, h + rng.u32r(0, 5), w.min(520), rng);
+            ctx.count("tall_parent_cases", 1);
+        } else {
+            one_case::<C, O>(ctx, tname, w, h, rng);
+            ctx.count("wide_parent_cases", 1);
+        }
     });
 }
 
@@ -349,7 +355,7 @@ fn main() {
     main_with("c09", "exploration", |run| {
         run.set_rule(
             "7 raw widths (1,2,4,8,16,24 bits with library colours, 32 bits with a harness colour over RawU32) x 2 data orders x all image sizes 0..=W x 0..=H x random bytes x random draw offsets x \
-             sub-image areas (inside, overlapping each edge, outside, zero-sized) nested up to three times, plus wide parents (255..=1009 pixels x 2..=4 rows, so that row strides and skips exceed 255); each drawn on an unbounded draw_iter-only target, an unbounded native target that drains the colour \
+             sub-image areas (inside, overlapping each edge, outside, zero-sized) nested up to three times, plus wide parents (255..=1009 pixels x 2..=4 rows, so that row strides and skips exceed 255) and tall ones (2..=9 pixels x 255..=520 rows); each drawn on an unbounded draw_iter-only target, an unbounded native target that drains the colour \
              stream, and bounded targets cutting the image. Non-trivial = image at least 2x2; distinct = distinct (type, order, size, bytes).",
         );
         run.assume("layout model written from the documentation (rows padded to whole bytes; LittleEndianMsb0 / BigEndianLsb0 as documented)");
